@@ -18,14 +18,14 @@ ASSUMPTIONS = [
     "reference points next to the antimeridian are included: the inverse may return longitudes beyond +-180 (unwrapped), which the "
     "forward map and the great-circle reference accept",
 ]
-MIN_NONTRIVIAL = {"quick": 2000, "thorough": 20000}
-TIMEOUT = {"quick": 600, "thorough": 1500}
+MIN_NONTRIVIAL = {"quick": 2000, "thorough": 64000}
+TIMEOUT = {"quick": 600, "thorough": 7000}
 R = 6_371_000.0
 NPER = 400
 
 
 def cases(tier, seed):
-    n = 40 if tier == "quick" else 640
+    n = 40 if tier == "quick" else 2560
     return [{"seed": seed, "idx": i} for i in range(n)]
 
 
